@@ -13,6 +13,7 @@ import (
 	"verif/harness/fw"
 	"verif/harness/gen"
 	"verif/harness/refmatch"
+	"verif/harness/scripted"
 	"verif/harness/simnet"
 	"verif/harness/wirefmt"
 )
@@ -746,6 +747,23 @@ func checkC06() fw.Check {
 			// reserves its own source port and installs its own filter - probes, filter and reported endpoints of run k are
 			// all run k's. And the IPv4 target handed over in its 16-byte form (what net.ParseIP returns).
 			cases = append(cases, objectReuseCases("C06")...)
+			// the stop rule at the engine boundary (scripted driver, both engines): a destination reply for ANY TTL - also one
+			// that is credited to an earlier probe than the one being waited for - ends the sending
+			for _, par := range []bool{true, false} {
+				for _, pr := range [][2]int{{1, 8}, {3, 12}, {1, 30}, {250, 255}, {2, 9}} {
+					par, pr := par, pr
+					id := fmt.Sprintf("C06/engine/%s/%d-%d", engName(par), pr[0], pr[1])
+					cases = append(cases, fw.Case{ID: id, Bubble: true, Run: func(c *fw.Ctx) {
+						for k := 0; k < 12; k++ {
+							p := engParams{first: uint8(pr[0]), last: uint8(pr[1]), timeout: 100 * time.Millisecond, poll: 20 * time.Millisecond, delay: 10 * time.Millisecond}
+							d := scripted.New(par, genShapeScript(c.Rng, par, p))
+							res, err := runEngine(context.Background(), par, d, p)
+							checkShape(c, fmt.Sprintf("%s rep %d", id, k), par, p, d.Snapshot(), res, err)
+						}
+						c.Nontrivial(fmt.Sprintf("engine/%s/%d-%d", engName(par), pr[0], pr[1]))
+					}})
+				}
+			}
 			// whole requests: the endpoints reported by RunTraceroute vs the wire, with the port omitted (documented
 			// default) and given, both families
 			for _, proto := range []string{"udp", "tcp", "icmp"} {
